@@ -405,3 +405,107 @@ theorem qdiv_mulInt (sbits kind ik : Nat) (q : Int) (P : Nat) (vs : Val)
       simp [hlt, this]
 
 end VelaVerif.FloatExact
+
+namespace VelaVerif.FloatExact
+open VelaVerif.Requant (roundTo)
+
+theorem log2_mul_pow (n k : Nat) (hn : n ≠ 0) : (n * 2 ^ k).log2 = n.log2 + k := by
+  obtain ⟨h1, h2⟩ := log2_bounds n hn
+  have hne : n * 2 ^ k ≠ 0 := Nat.mul_ne_zero hn (by have := Nat.pow_pos (n := k) (show 0 < 2 by omega); omega)
+  have hlo : 2 ^ (n.log2 + k) ≤ n * 2 ^ k := by
+    rw [Nat.pow_add]; exact Nat.mul_le_mul_right _ h1
+  have hhi : n * 2 ^ k < 2 ^ (n.log2 + k + 1) := by
+    have : 2 ^ (n.log2 + k + 1) = 2 ^ (n.log2 + 1) * 2 ^ k := by rw [← Nat.pow_add]; congr 1; omega
+    rw [this]; exact Nat.mul_lt_mul_of_pos_right h2 (Nat.pow_pos (by omega))
+  have a : n.log2 + k ≤ (n * 2 ^ k).log2 := (Nat.le_log2 hne).mpr hlo
+  have b : (n * 2 ^ k).log2 < n.log2 + k + 1 := (Nat.log2_lt hne).mpr hhi
+  omega
+
+/-- exponent of the result of rounding an integer (`den = 1`): that of the operand, one more after a carry -/
+theorem roundTo_exp (p num : Nat) (e : Int) (m : Nat) (e' : Int) (h : roundTo p num 1 e = some (m, e')) :
+    e' = e + (num.log2 : Int) + 1 - (p : Int) ∨ e' = e + (num.log2 : Int) + 2 - (p : Int) := by
+  have hnz : ¬(num = 0 ∨ 1 = 0 ∨ p = 0) := by
+    intro hh
+    unfold roundTo at h
+    rw [if_pos hh] at h
+    cases h
+  have hnum : num ≠ 0 := fun hh => hnz (Or.inl hh)
+  rw [roundTo_eq p num 1 e hnz] at h
+  have hq : num * 2 ^ upOf p num 1 / 1 = num * 2 ^ upOf p num 1 := Nat.div_one _
+  rw [hq] at h
+  have hlog := log2_mul_pow num (upOf p num 1) hnum
+  have hup : p + 3 ≤ num.log2 + upOf p num 1 := by
+    unfold upOf
+    have : Nat.log2 1 = 0 := by decide
+    rw [this]
+    split <;> omega
+  have hdrop : (dropOf p (num * 2 ^ upOf p num 1) : Int) = (num.log2 : Int) + (upOf p num 1 : Int) + 1 - (p : Int) := by
+    unfold dropOf
+    rw [hlog]; omega
+  split at h
+  · injection h with h; injection h with _ h2
+    right; rw [← h2, hdrop]; omega
+  · injection h with h; injection h with _ h2
+    left; rw [← h2, hdrop]; omega
+
+/-- a positive normal binary64 pattern with biased exponent at most 2026 decodes to a 53-bit mantissa -/
+theorem decode_normal (bits : Nat) (hpos : bits < 2 ^ 63) (hex : 1 ≤ bits / 2 ^ 52 % 2048 ∧ bits / 2 ^ 52 % 2048 ≤ 2026) :
+    ∃ m e, f64Decode bits = some ⟨false, m, e⟩ ∧ 2 ^ 52 ≤ m ∧ m < 2 ^ 53 ∧ -1074 ≤ e ∧ e ≤ 951 := by
+  unfold f64Decode
+  have h1 : bits / 2 ^ 63 % 2 = 0 := by omega
+  have h4 : ¬ (bits ≥ 2 ^ 64 ∨ bits / 2 ^ 52 % 2048 = 2047) := by omega
+  simp only [h1]
+  rw [if_neg h4, if_neg (by omega : ¬ bits / 2 ^ 52 % 2048 = 0)]
+  refine ⟨bits % 2 ^ 52 + 2 ^ 52, ((bits / 2 ^ 52 % 2048 : Nat) : Int) - 1075, ?_, ?_, ?_, ?_, ?_⟩
+  · simp
+  · omega
+  · omega
+  · omega
+  · omega
+
+/-- the product of such a scale with an integer of magnitude at most `2^18` is representable -/
+theorem mulInt_some (sbits kind ik : Nat) (q : Int) (m : Nat) (e : Int) (hs : f64Decode sbits = some ⟨false, m, e⟩)
+    (hm1 : 2 ^ 52 ≤ m) (hm2 : m < 2 ^ 53) (he1 : -1074 ≤ e) (he2 : e ≤ 951) (hq : q.natAbs ≤ 2 ^ 18) :
+    ∃ P, mulInt sbits kind ik q = some P := by
+  by_cases hq0 : q = 0
+  · exact ⟨0, by simp [mulInt, hs, hq0]⟩
+  · have hn0 : q.natAbs ≠ 0 := by omega
+    have hmne : m ≠ 0 := by omega
+    simp only [mulInt, hs, Option.bind_eq_bind, Option.bind_some, hq0, hmne, or_self, ↓reduceIte, roundP,
+      Nat.mul_eq_zero, hn0]
+    generalize hpp : (if mulKind kind ik = 1 then 24 else 53) = pp
+    have hpp24 : 24 ≤ pp := by rw [← hpp]; split <;> omega
+    have hpp53 : pp ≤ 53 := by rw [← hpp]; split <;> omega
+    have hprod : m * q.natAbs ≠ 0 := Nat.mul_ne_zero hmne hn0
+    obtain ⟨mP, eP, hrP⟩ := roundTo_some pp (m * q.natAbs) 1 e hprod (by omega) (by omega)
+    obtain ⟨hmP1, hmP2, _⟩ := roundTo_spec pp (m * q.natAbs) 1 e mP eP (by omega) hrP
+    have hexp := roundTo_exp pp (m * q.natAbs) e mP eP hrP
+    simp only [hrP, Option.bind_some]
+    -- log2 of the product
+    have hlog : 52 ≤ (m * q.natAbs).log2 ∧ (m * q.natAbs).log2 ≤ 71 := by
+      have hlo : 2 ^ 52 ≤ m * q.natAbs := le_trans hm1 (Nat.le_mul_of_pos_right m (by omega))
+      have hhi : m * q.natAbs < 2 ^ 72 := by
+        calc m * q.natAbs ≤ m * 2 ^ 18 := Nat.mul_le_mul_left m hq
+          _ < 2 ^ 53 * 2 ^ 18 := Nat.mul_lt_mul_of_pos_right hm2 (by norm_num)
+          _ = 2 ^ 71 := by norm_num
+          _ < 2 ^ 72 := by norm_num
+      exact ⟨(Nat.le_log2 hprod).mpr hlo, by have := (Nat.log2_lt hprod).mpr hhi; omega⟩
+    generalize (m * q.natAbs).log2 = ln at hexp hlog
+    -- the encoder's branch
+    have hmPne : mP ≠ 0 := by
+      have : 0 < 2 ^ (pp - 1) := Nat.pow_pos (by omega)
+      omega
+    have hl : mP.log2 = pp - 1 := by
+      have a : pp - 1 ≤ mP.log2 := (Nat.le_log2 hmPne).mpr hmP1
+      have b : mP.log2 < pp := (Nat.log2_lt hmPne).mpr hmP2
+      omega
+    unfold f64Encode
+    simp only [hmPne, ↓reduceIte, hl]
+    have hle : pp - 1 ≤ 52 := by omega
+    simp only [hle, ↓reduceIte]
+    have hb : ¬ (eP - ((52 - (pp - 1) : Nat) : Int) + 1075 < 1 ∨ eP - ((52 - (pp - 1) : Nat) : Int) + 1075 > 2046) := by
+      rcases hexp with h | h <;> omega
+    rw [if_neg hb]
+    exact ⟨_, rfl⟩
+
+end VelaVerif.FloatExact
